@@ -7,7 +7,7 @@ B2      : every operation sequence TLC reaches up to the history bound is replay
           virtual clock); plus seeded random longer sequences with three contenders.
 P layer : spec/trace/TraceLease.tla judges every reply, the store's holder/remaining time and
           the leadership the code told each instance."""
-import json, os, time, shutil
+import random, json, os, time, shutil
 import vlib
 
 SPEC = os.path.join(vlib.VERIF, "spec")
@@ -48,12 +48,20 @@ def _check(prop, tier, seed, replay, work, t0):
                   work, timeout=1800, name="LeaseCases")
     vlib.tlc_ok(r2, "Lease.tla cases")
     cases = os.path.join(work, "cases.txt")
-    n = 0
+    n = nlate = 0
+    plain, late = [], []
+    for line in r2["out"].splitlines():
+        if line.startswith('"CASE '):
+            (late if 'late' in line else plain).append(line)
+    if tier == "quick" and len(late) > 3000:
+        # a late reply costs real time (the caller's deadline has to pass): the quick tier replays a seeded sample of them
+        random.Random(seed).shuffle(late)
+        late = late[:3000]
     with open(cases, "w") as w:
-        for line in r2["out"].splitlines():
-            if line.startswith('"CASE '):
-                w.write(line + "\n")
-                n += 1
+        for line in plain + late:
+            w.write(line + "\n")
+            n += 1
+    nlate = len(late)
     if n == 0:
         raise vlib.HarnessError("TLC printed no case")
     shards = vlib.NCPU
@@ -107,7 +115,7 @@ def _check(prop, tier, seed, replay, work, t0):
         violations.append({"replay": path, "what": "%s at %s in sequence %s" % (",".join(v["names"]), lines[i], [o["op"] + ":" + o["i"] + ":" + o["f"] for o in ops][:12])})
     cov = {"states": r1["distinct"] + r2["distinct"], "transitions": r1["generated"] + r2["generated"],
            "traces_validated_against_impl": nseq, "samples": samples[:4], "exhaustive": True,
-           "calls_on_real_election": ncalls, "tlc_generated_sequences": n,
+           "calls_on_real_election": ncalls, "tlc_generated_sequences": n, "of_them_with_a_late_reply": nlate,
            "explanation": "D: 3 contenders, TTL 3, all interleavings of campaign/renew/resign/tick/lost/failed calls (%d distinct states). "
                           "Replay: every operation sequence of depth <= %d over 2 contenders (11 operations) + %d seeded random sequences of %d operations over 3 contenders"
                           % (r1["distinct"], hist, nrand * shards, rlen)}
